@@ -5,6 +5,7 @@ that a new version of harness/props/Cxx.py can be dropped in without losing them
 """
 EXTRA_TARGETS = {
     'C01': ['XdocModel.Proofs.Compose'],
+    'C07': ['XdocModel.Proofs.GoogleMargin'],
     'C04': ['XdocModel.Proofs.Compose2'],
     'C08': ['XdocModel.Proofs.Compose', 'XdocModel.Proofs.Compose2'],
     'C10': ['XdocModel.Proofs.Compose2'],
@@ -41,6 +42,8 @@ EXTRA_THEOREMS = {
             ('Xdoc.C14.intervalStarts_decreasing', 'full'), ('Xdoc.C14.hackComments_fuel_free', 'full'),
             ('Xdoc.C14.lexGoF_eq', 'full'), ('Xdoc.C14.isBalanced_fuel_free', 'full'), ('Xdoc.C14.labelLines_length', 'full')],
 }
+EXTRA_THEOREMS['C07'] = [('Xdoc.Google.dedentLines_margin', 'full'), ('Xdoc.Google.prepLines_margin', 'full'),
+                         ('Xdoc.Google.prepLines_margin_old_padding_fails', 'witness'), ('Xdoc.Google.prepLines_margin_tab_witness', 'witness')]
 EXTRA_THEOREMS['C08'] += [('Xdoc.Compose2.parse_then_file_line_google', 'full'), ('Xdoc.Compose2.google_block_tiled', 'full'),
                           ('Xdoc.Compose2.parse_then_part_on_file_line', 'full'),
                           ('Xdoc.Compose2.google_lineno_counts_splitlines_witness', 'witness')]
@@ -71,6 +74,10 @@ def _replay_K_C08_d(ctx, finding):
 EXTRA_FINDING_REPLAYS = {'K-C08-c': _replay_K_C08_c, 'K-C08-d': _replay_K_C08_d}
 
 EXTRA_TEXT = {
+    'C07': (" ADDED (Proofs/GoogleMargin.lean, after repair 6117f16): `dedentLines_margin` (textwrap.dedent removes exactly the common margin: the margin it computes is the greatest "
+            "common prefix of the leading blank/tab strings) and `prepLines_margin` — for a docstring that starts on the line of its quotes and whose other lines carry ANY margin of blanks "
+            "and tabs, the lines the Google block splitter works on are the first line plus the other lines without the margin; with the padding the code used before the repair the "
+            "statement is false for a tab margin (`prepLines_margin_old_padding_fails`, kernel-evaluated; the defect was found by the tab-indented variant of the module generator)."),
     'C04': (" ADDED (Proofs/Compose2.lean, with C11): `default_options_run_like_leading_block` — a run with default options equals, part for part (indices shifted "
             "by one), the run of the same doctest with those options written as a leading block directive."),
     'C10': (" ADDED (Proofs/Compose2.lean, C10∘C09∘C02): the hypotheses 'every run returns' are DISCHARGED from C09's `return_mode_never_raises`: "
